@@ -1,6 +1,9 @@
 //! okane-verif-replay: runs witness families / replay files against the real code.
 //! usage: okane-verif-replay <family> [args...]   -> prints one JSON object per line; last line is a summary.
+mod c06;
 mod c07;
+mod c08;
+mod ledger;
 
 fn main() {
     let args: Vec<String> = std::env::args().collect();
@@ -11,7 +14,10 @@ fn main() {
     // panics inside the code under test are observations, not crashes of the replayer
     std::panic::set_hook(Box::new(|_| {}));
     let rc = match args[1].as_str() {
+        "c06" => c06::run(&args[2..]),
         "c07" => c07::run(&args[2..]),
+        "c08" => c08::run(&args[2..]),
+        "c01" | "c02" | "c03" | "ledger" => ledger::run(&args[2..]),
         other => {
             eprintln!("unknown family {other}");
             2
